@@ -570,6 +570,28 @@ func main() {
 		if hugeCases != nil {
 			hugeCases(submit)
 		}
+		// the device certificate presented in both roles (as itself and as "slot certificate"): it was signed by the
+		// root, not by the device key, so it attests nothing — the same object, a separately parsed copy, for every key
+		for ki, d := range keys {
+			if ki > 3 {
+				break
+			}
+			for vi, slot := range []*x509.Certificate{d.f9, func() *x509.Certificate { c, _ := x509.ParseCertificate(d.f9DER); return c }()} {
+				if slot == nil {
+					continue
+				}
+				c := next()
+				r.Eval(1)
+				var err error
+				if !r.Guard(c, "Attest", "device certificate as slot certificate", func() { err = p.attestor.Attest(d.f9, slot) }) {
+					if err == nil {
+						r.Violation(c, "accepts-invalid:device-certificate-presented-as-its-own-slot-certificate", fmt.Sprintf("key %d (%d bits), variant %d (0: same object, 1: parsed copy): the device certificate is signed by the root, not by the device key", ki, d.priv.N.BitLen(), vi), attCase{What: "device-certificate-as-slot-certificate", Expect: "reject", KeyBits: d.priv.N.BitLen(), F9: hex.EncodeToString(d.f9.Raw)})
+					} else {
+						r.Count("device certificate presented as its own slot certificate -> rejected", 1)
+					}
+				}
+			}
+		}
 		// a root with an RSA key of its own: the slot certificate is signed by the DEVICE key. A well-formed signature
 		// made with the key of the root that issued the device certificate (or of any other certificate the chain
 		// runs through) is a signature by somebody else.
